@@ -9,6 +9,7 @@ import (
 	"os"
 	"runtime"
 	"runtime/debug"
+	"sync"
 
 	"github.com/mlange-42/arche/ecs"
 )
@@ -171,6 +172,20 @@ func cmdGen(args []string) {
 		if rng.Intn(3) == 0 {
 			h.RelCapInc = 1 + rng.Intn(3)
 		}
+		if p.PermuteTypes {
+			// the same Go types are registered under different ids in different worlds
+			comps := append([]CompSpec{}, p.Comps...)
+			byKind := map[string][]int{}
+			for i, c := range comps {
+				byKind[c.Kind] = append(byKind[c.Kind], i)
+			}
+			for _, idx := range byKind {
+				for j, i := range idx {
+					comps[i].Key = comps[idx[(j+k)%len(idx)]].ID + 1
+				}
+			}
+			h.Comps = comps
+		}
 		if p.RandListener {
 			randL := func() LSpec {
 				l := LSpec{S: rng.Intn(64)}
@@ -265,4 +280,45 @@ func main() {
 	}
 }
 
-var extraCommands = map[string]func([]string){}
+var extraCommands = map[string]func([]string){"worlds": cmdWorlds}
+
+// cmdWorlds replays schedules on distinct worlds from k goroutines running truly in parallel (C19).
+func cmdWorlds(args []string) {
+	fs := flag.NewFlagSet("worlds", flag.ExitOnError)
+	in := fs.String("in", "", "schedule file")
+	prefix := fs.String("out", "", "trace file prefix")
+	k := fs.Int("k", 8, "goroutines")
+	fs.Parse(args)
+	f, err := os.Open(*in)
+	fatal(err)
+	sc := bufio.NewScanner(f)
+	sc.Buffer(make([]byte, 1<<20), 1<<28)
+	var hs []Header
+	for sc.Scan() {
+		if len(sc.Bytes()) == 0 {
+			continue
+		}
+		var h Header
+		fatal(json.Unmarshal(sc.Bytes(), &h))
+		hs = append(hs, h)
+	}
+	f.Close()
+	initIDTable()
+	start := make(chan struct{})
+	var wg sync.WaitGroup
+	for g := 0; g < *k; g++ {
+		wg.Add(1)
+		go func(g int) {
+			defer wg.Done()
+			out := newLineWriter(fmt.Sprintf("%s-%d.ndjson", *prefix, g))
+			<-start
+			for i := g; i < len(hs); i += *k {
+				runSchedule(hs[i], out)
+			}
+			out.close()
+		}(g)
+	}
+	close(start)
+	wg.Wait()
+	fmt.Printf("{\"schedules\":%d,\"goroutines\":%d}\n", len(hs), *k)
+}
